@@ -121,3 +121,19 @@ func VerifSweepOCSP() {
 	zz.MonitorStop()
 	sweepAsserts(name, res)
 }
+
+// VerifC09Entry: the library entry point itself (result-set construction,
+// registry selection, anything it may memoise) on a certificate that is not
+// self-signed, with the global registry - which is empty in this job, because
+// only package lint's initialisers are run - so that what is observed is the
+// entry point's own use of the certificate.  Checked by taint like the lints.
+func VerifC09Entry() {
+	c := zz.Lazy[x509.Certificate]("c")
+	zz.Assume(!c.SelfSigned)
+	c = zz.Realise(c)
+	rs := LintCertificateEx(c, nil)
+	zz.Assert(rs != nil, "the entry point returns a result set")
+	rs2 := LintCertificateEx(c, lint.GlobalRegistry())
+	zz.Assert(rs2 != nil, "the entry point returns a result set")
+	zz.Cover("result")
+}
